@@ -12,7 +12,9 @@ CONFORM = ['absent', 'returns-None', 'returns-value', 'returns-falsy', 'raises-R
            'instance-returns-None', 'instance-returns-value', 'instance-raises-RuntimeError', 'dunder-getattr-returns-value']
 HOOK = ['None', 'value', 'falsy', 'raises',
         # hooks that change the list they are called from (the documented loop is `for hook in adapter_hooks`, i.e. the live list)
-        'None-drops-rest', 'None-appends-late']
+        'None-drops-rest', 'None-appends-late',
+        # a hook that adapts another object to another interface before declining (adaptation is re-entrant: hooks adapt)
+        'None-after-nested-adaptation']
 CUSTOM = ['absent', 'returns-None', 'returns-value', 'returns-falsy', 'raises', 'calls-super',
           'inherited-plain', 'inherited-with-other-interfacemethod']
 ALT = ['not-given', 'object', 'None']
@@ -134,8 +136,15 @@ def run_case(case, trace=False):
     if where == 'instance':
         ob.__conform__ = conform_fn
 
+    nested = {'on': False}
+
+    class INested(Interface):
+        pass
+
     def mkhook(i, kind):
         def hook(iface, obj):
+            if nested['on']:
+                return None             # the nested adaptation of another object: every hook declines, silently
             log.append('hook%d' % i)
             if iface is not I or obj is not ob:
                 raise AssertionError('hook args')
@@ -151,10 +160,20 @@ def run_case(case, trace=False):
             if kind == 'None-appends-late':
                 zi.adapter_hooks.append(late_hook)
                 return None
+            if kind == 'None-after-nested-adaptation':
+                nested['on'] = True
+                try:
+                    if INested(object(), None) is not None:
+                        raise AssertionError('nested adaptation')
+                finally:
+                    nested['on'] = False
+                return None
             raise _Boom('hook%d' % i)
         return hook
 
     def late_hook(iface, obj):
+        if nested['on']:
+            return None
         log.append('hook-late')
         return V['late']
     hook_fns = [mkhook(i, HOOK[k]) for i, k in enumerate(hooks)]
